@@ -36,10 +36,29 @@ HOMOG = list(L.HOMOG_ALL)
 METHODS = ("cb", "ca", "cbi", "cai")
 MNAME = {"cb": "compose_before", "ca": "compose_after", "cbi": "compose_before_inplace", "cai": "compose_after_inplace"}
 
+# operands whose matrix has an integer dtype (menpo keeps the dtype it is given; the repository's own tests build
+# such transforms): a product written back into the receiver's dtype would be truncated
+INT_LETTERS = ["Affine-int", "Homogeneous-int", "Similarity-int"]
+
+
+def int_letter(letter, d):
+    mt = _m()["mt"]
+    if d == 2:
+        h = {"Affine-int": [[2, 1, 3], [0, 1, -2], [0, 0, 1]], "Homogeneous-int": [[1, 2, -1], [3, 1, 2], [0, 0, 1]], "Similarity-int": [[0, -2, 1], [2, 0, 3], [0, 0, 1]]}[letter]
+    else:
+        h = {
+            "Affine-int": [[2, 1, 0, 3], [0, 1, 1, -2], [1, 0, 2, 1], [0, 0, 0, 1]],
+            "Homogeneous-int": [[1, 2, 0, -1], [3, 1, 1, 2], [0, 1, 2, 1], [0, 0, 0, 1]],
+            "Similarity-int": [[0, -2, 0, 1], [2, 0, 0, 3], [0, 0, 2, -1], [0, 0, 0, 1]],
+        }[letter]
+    cls = {"Affine-int": mt.Affine, "Homogeneous-int": mt.Homogeneous, "Similarity-int": mt.Similarity}[letter]
+    return cls(np.array(h, dtype=np.int64))
+
+
 FULL = {
-    ("g", 2): HOMOG + ["TransformChain", "WithDims", "ThinPlateSplines", "TPS-R2LogRRBF"],
+    ("g", 2): HOMOG + ["TransformChain", "WithDims", "ThinPlateSplines", "TPS-R2LogRRBF"] + INT_LETTERS,
     ("m", 2): HOMOG + ["TransformChain", "WithDims", "ThinPlateSplines", "PythonPWA", "CachedPWA"],
-    ("g", 3): HOMOG + ["TransformChain", "WithDims"],
+    ("g", 3): HOMOG + ["TransformChain", "WithDims"] + INT_LETTERS,
 }
 REDUCED = {
     ("g", 2): ["Homogeneous", "Affine", "AlignmentSimilarity", "Rotation", "NonUniformScale", "AlignmentTranslation", "TransformChain", "ThinPlateSplines"],
@@ -345,6 +364,8 @@ class C03(Check):
                 obj = mild(letter, var, self.seed)
             elif letter in ("Affine-negdet", "Affine-equal-sv"):
                 obj = special(letter, d, self.seed)
+            elif letter in INT_LETTERS:
+                obj = int_letter(letter, d)
             else:
                 obj = generic(letter, d, var, self.seed)
             blob = self._blobs[key] = pickle.dumps(obj, protocol=pickle.HIGHEST_PROTOCOL)
